@@ -828,7 +828,11 @@ fn case_deep(t: &mut Tape, st: &mut Stats) -> Verdict {
     // a bystander that must survive
     let by = val(&exec(&mut ctx, "array", &["kept".to_string()])).unwrap_or_default();
     let before = count(&ctx);
-    let depth = 65 + t.below(136);
+    // usually 65..200 levels, one case in eight 2100..3100
+    let depth = if t.chance(1, 8) { 2100 + t.below(1001) } else { 65 + t.below(136) };
+    if depth > 2048 {
+        st.class("chain-deeper-than-2048");
+    }
     let mut chain: Vec<(String, u8)> = vec![];
     let mut inner = val(&exec(&mut ctx, "array", &["leaf".to_string()])).unwrap_or_default();
     chain.push((inner.clone(), 0));
@@ -879,7 +883,7 @@ fn case_deep(t: &mut Tape, st: &mut Stats) -> Verdict {
 pub fn property() -> Property {
     Property {
         id: "C12",
-        rule: "histories of 1..60 (thorough ..200) operations over <= 5 live handles of mixed kinds: every command the property lists, indexes inside/at/beyond the end, negative, non-numeric and huge, values over hazard Unicode incl. empty, handle look-alikes, other live handles and released handles, use-after-release, kind confusion, release with and without -r; each operation is one run_instruction on a persistent SDK context. Oracle: Vec/BTreeMap/BTreeSet per live handle; outputs compared per step (map_keys / set_to_array as sets); after every rejected (error/false) step and at random other steps ALL live collections are re-read through the public commands and compared, released handles must answer false to is_array/is_map/is_set; handle distinctness checked at creation; (deep-nesting) chains of 65..200 arrays / maps / sets each holding the next one's handle, released recursively from the head: all gone, handle table back to its size, a bystander untouched. Non-trivial: a kind-confused / use-after-release / unknown-handle step followed by a full re-read with >= 2 kinds live; distinct by history",
+        rule: "histories of 1..60 (thorough ..200) operations over <= 5 live handles of mixed kinds: every command the property lists, indexes inside/at/beyond the end, negative, non-numeric and huge, values over hazard Unicode incl. empty, handle look-alikes, other live handles and released handles, use-after-release, kind confusion, release with and without -r; each operation is one run_instruction on a persistent SDK context. Oracle: Vec/BTreeMap/BTreeSet per live handle; outputs compared per step (map_keys / set_to_array as sets); after every rejected (error/false) step and at random other steps ALL live collections are re-read through the public commands and compared, released handles must answer false to is_array/is_map/is_set; handle distinctness checked at creation; (deep-nesting) chains of 65..200 (one in eight: 2100..3100) arrays / maps / sets each holding the next one's handle, released recursively from the head: all gone, handle table back to its size, a bystander untouched. Non-trivial: a kind-confused / use-after-release / unknown-handle step followed by a full re-read with >= 2 kinds live; distinct by history",
         assumptions: &[
             "values are free of '$', '%' and backslash (binding is C02's subject); array_join separators come from a pool outside the C09 known classes",
             "for a rejected operation only 'error result or false' is required, not a particular message",
@@ -901,7 +905,7 @@ pub fn property() -> Property {
                     Tier::Thorough => Plan::Random { cases: 8_000, max_len: 220 },
                 },
                 case: case_deep,
-                min_classes: &[("recursive-release-deeper-than-64", 300)],
+                min_classes: &[("recursive-release-deeper-than-64", 300), ("chain-deeper-than-2048", 20)],
             },
             Section {
                 name: "long-histories",
